@@ -173,11 +173,11 @@ def shapes():
             ("rule", "RULE %s FOR (e);\nWHERE\n w : TRUE;\nEND_RULE;" % nm),
         ):
             out.append(("long_name_%d_%s" % (n, place), BASE % text, ("long_ident", n)))
-    # expressions longer than two fixed buffers (open findings): a CASE label (exppp measures it in char buffer[10000]) and an
-    # aggregate bound (exp2python prints it into 100000 bytes with strcat); below the buffers both are fine
+    # expressions longer than two fixed buffers: a CASE label (exppp measured it in char buffer[10000]; repaired) and an
+    # aggregate bound (exp2python prints it into 100000 bytes with strcat: open finding); below the buffers both are fine
     for n in (2000, 12000):
         out.append(("case_label_string_%d" % n, "SCHEMA s;\nFUNCTION f (x : STRING) : INTEGER;\n CASE x OF\n  '%s' : RETURN (1);\n  OTHERWISE : RETURN (2);\n END_CASE;\nEND_FUNCTION;\nENTITY e;\n a : INTEGER;\nEND_ENTITY;\nEND_SCHEMA;\n" % ("a" * n),
-                    ("growth", "case_label_length_buffer") if n > 9000 else ("valid", 0)))
+                    ("valid", 0)))
     for n in (2000, 60000):
         out.append(("bound_expression_%d" % n, "SCHEMA s;\nFUNCTION f (a : STRING; b : STRING) : INTEGER;\n RETURN (1);\nEND_FUNCTION;\nENTITY x;\n l : LIST [0:f('%s', '%s')] OF INTEGER;\nEND_ENTITY;\nEND_SCHEMA;\n" % ("a" * n, "b" * n),
                     ("growth", "exp2python_expression_buffer") if n > 40000 else ("valid", 0)))
